@@ -196,10 +196,30 @@ def _iter_toplevel(stmts):
             yield s
 
 
+def _clear_analysis_caches():
+    """Module-level memo tables of the engine and of the rule modules are keyed
+    by `id()` of AST nodes.  A node id is only unique while the node is alive:
+    when one process analyses several trees in sequence (self-test, seeded
+    runs) the nodes of an earlier Project are freed and a new function node may
+    get a recycled id, so a stale entry would describe ANOTHER function.  Every
+    dict named *_CACHE / *_cache in the `sa` package is therefore emptied
+    whenever a new Project is built (entries of an older Project that is still
+    alive are merely recomputed)."""
+    import sys
+    for name, mod in list(sys.modules.items()):
+        if mod is None or not (name == 'sa' or name.startswith('sa.')):
+            continue
+        for k, v in list(vars(mod).items()):
+            if isinstance(v, dict) and k.lower().endswith('_cache'):
+                v.clear()
+
+
+
 class Project:
     """All modules under <root>/falcon, indexed."""
 
     def __init__(self, root: str, pkg: str = 'falcon', extra_files: Optional[Dict[str, str]] = None):
+        _clear_analysis_caches()
         self.root = os.path.abspath(root)
         self.pkg = pkg
         self.modules: Dict[str, Module] = {}
